@@ -781,7 +781,7 @@ const (
 			</data>
 		</avp>
 
-		<avp name="Acct-Balance" code="7028">
+		<avp name="Acct-Balance" code="7030">
 			<data type="Grouped">
 				<rule avp="Acct-Balance-Id" required="true" max="1"/>
 				<rule avp="Unit-Value" required="true" max="1"/>
